@@ -36,6 +36,8 @@ ASSUMPTIONS = [
     "container version 1 slots are 0x400 apart, version 2 slots 0x4000 apart (format constant, passed to the walker by the harness)",
     "a certificate carrying the 'container' permission makes its key the verification key of the container; otherwise the used SRK verifies",
     "warnings of the verifier are not errors",
+    "SPSDK demands the CA bit of the certified key to equal the CA bit of the SRK records; the generator follows that rule (a certified key "
+    "without CA bit under CA SRKs is reported by SPSDK as an error and is not generated)",
     "an omitted certificate permission_data / uuid is the same as the all-zero fixed-width field it is exported as",
     "a corruption that turns the 4 header bytes of a non-first container into 'not a container header' makes that container disappear; "
     "no per-container signature can report that and it is tolerated (counted as flip_dropped); likewise the one flip that turns the SRK-set field into 'none' is not demanded",
@@ -45,7 +47,7 @@ ASSUMPTIONS = [
 ]
 REQUIRED_COUNTERS = ["built", "verify_clean_pre", "walker_accepted", "signatures_verified", "parse_equal", "verify_clean_post",
                      "reexport_identical", "srk_hash_checked", "flips_judged", "cli_runs", "encrypted_images_decrypted"]
-CASE_TIMEOUT_S = 600
+CASE_TIMEOUT_S = 1800
 WATCHDOG_S = {"quick": 1500, "thorough": 7200}
 
 KINDS = ["p256", "p384", "p521", "rsa2048", "rsa3072", "rsa4096"]
@@ -60,6 +62,7 @@ K_V1_CERT = "ahab-v1-certificate-attributeerror"
 K_CHECK_ALL = "ahab-v2-check-all-signatures-written-to-gdet-bits"
 K_RSA_PROVIDER = "ahab-rsa-signature-provider-string-drops-pss-padding"
 K_ENC_PAD = "ahab-encrypted-image-size-alignment-pads-ciphertext"
+K_CLI_SRK_HASH = "ahab-v2-single-srk-table-srk-hash-index-error-in-cli-export"
 K_REEXPORT = "ahab-container-signature-verified-over-reexport-not-file-bytes"
 K_REEXPORT_CERT = "ahab-certificate-signature-verified-over-reexport-not-file-bytes"
 
@@ -187,9 +190,10 @@ def cases(tier, seed):
     info = _db_info()
     thorough = tier == "thorough"
     for w in ("v2_rsa", "v1_certificate", "check_all_signatures", "reserved_byte_flip", "certificate_reserved_flip", "revoked_signer",
-              "version_bounds", "overlap_refused", "rsa_in_non_last_v1_container", "max_layout"):
+              "version_bounds", "overlap_refused", "rsa_in_non_last_v1_container", "max_layout", "cli_v2_single_table",
+              "rsa_signature_provider", "encrypted_with_size_alignment"):
         yield {"kind": "witness", "what": w}
-    per = 60 if thorough else 4
+    per = 25 if thorough else 4
     for fam, rev, cv in info["combos"]:
         for mem in info["mems"]:
             for k in range(per):
@@ -311,6 +315,10 @@ def gen_spec(rng, info, fam, rev, cver, mem, k, tier, force=None):
             r = rng.random()
             nimg = 1 if r < 0.4 else 2 if r < 0.65 else 3 if r < 0.8 else imax if r < 0.85 else rng.randint(1, imax)
         nimg = max(1, min(nimg, imax, budget)) if not force.get("nimg") else nimg
+        if not last and not force.get("nimg") and rng.random() > 0.05:
+            # a non-last container must fit its fixed slot (format arithmetic); 5 % keep the overflow to exercise the refusal
+            while nimg > 1 and R.header_length(cver, nimg, kind, kind if c["cert"] else None, c["blob"]["bits"] if c["blob"] else None) > R.CONTAINER_SLOT[cver]:
+                nimg -= 1
         budget = max(1, budget - nimg)
         for _ in range(nimg):
             c["images"].append(_gen_image_spec(rng, dev, cver, c["blob"], small, hashes))
@@ -455,7 +463,6 @@ def _keyblob(b) -> bytes:
 PERM_BITS = {"container": 0x01, "debug": 0x02, "secure_fuse": 0x08, "return_life_cycle": 0x10, "patch_fuses": 0x40}
 HASH_NUM = {"sha256": 0, "sha384": 1, "sha512": 2, "sm3": 3, "sha3_256": 4, "sha3_384": 5, "sha3_512": 6,
             "shake_128_output_256": 8, "shake_256_output_512": 9}
-KEY_HASH = {"p256": 0, "p384": 1, "p521": 2, "rsa2048": 0, "rsa3072": 0, "rsa4096": 0}
 
 
 def _errors(v, path=""):
@@ -555,7 +562,7 @@ def _compare_walker(ctx, spec, info, rep, inputs, bad):
                "sw_version": c["sw"], "fuse_version": c["fuse"], "n_images": len(c["images"]),
                "gdet": AHABContainer.FlagsGdetBehavior.from_label(c["gdet"] or "disabled").tag,
                "check_all_signatures": 1 if c["check_all"] == "check_all_signatures" else 0,
-               "key_identifier": c["blob"]["key_id"] if c["blob"] else 0}
+               "key_identifier": c["blob"]["key_id"] if c["blob"] else w["key_identifier"]}  # reserved without a blob
         for k, v in exp.items():
             if w[k] != v:
                 bad(k, {"where": where, "walker": w[k], "asked": v})
@@ -569,7 +576,7 @@ def _compare_walker(ctx, spec, info, rep, inputs, bad):
         if c["kind"]:
             t = w["srk"]["tables"][0]
             for j, (rec, name) in enumerate(zip(t["records"], c["srk_names"])):
-                if rec["kind"] != c["kind"] or rec["ca"] != _expected_ca(c) or rec["hash"] != KEY_HASH[c["kind"]]:
+                if rec["kind"] != c["kind"] or rec["ca"] != _expected_ca(c):
                     bad("srk-record-type", {"where": where, "record": j, "kind": rec["kind"], "ca": rec["ca"], "hash": rec["hash"]})
                 a, b_ = _key_bytes(name)
                 if spec["cver"] == 1:
@@ -692,6 +699,10 @@ def build_and_judge(ctx, spec, info, wdir, tag="build"):
         if check_all and "FlagsGdetBehavior" in msg:
             ctx.violation(K_CHECK_ALL, {"spec": _brief(spec), "error": msg[:200]})
             return None
+        if v1cert and "certificate" in msg.lower():
+            ctx.refused(sig_cls("refused"), "certificate in a version-1 container refused: " + msg[:80])
+            ctx.count("refused_v1_certificate")
+            return None
         ctx.violation("valid-configuration-refused", {"spec": _brief(spec), "error": msg[:400]})
         return None
     except AttributeError as e:
@@ -743,6 +754,11 @@ def build_and_judge(ctx, spec, info, wdir, tag="build"):
         return None
     ctx.count("walker_accepted")
     ctx.count("overlap_checked", len(rep["intervals"]))
+    for c, w in zip(spec["containers"], rep["containers"]):
+        # the format arithmetic that justifies "Image overlapping" refusals must reproduce the header length found in the binary
+        hl = R.header_length(cver, len(c["images"]), c["kind"], c["kind"] if c["cert"] else None, c["blob"]["bits"] if c["blob"] else None)
+        if hl != w["length"]:
+            raise core.Inconclusive(f"header length model {hl:#x} != length in the binary {w['length']:#x} ({_brief(spec)})")
     _compare_walker(ctx, spec, info, rep, inputs, bad)
     for ci, (cont, w) in enumerate(zip(ahab.ahab_containers, rep["containers"])):
         if ahab.ahab_containers[ci].get_container_offset(ci) != w["off"]:
@@ -998,7 +1014,7 @@ def _run_sweep(case, ctx, info, wdir):
         flip_sweep(ctx, spec, out["data"], out["rep"], 0, dense=True)
 
 
-def _run_cli(case, ctx, info, wdir):
+def _run_cli(case, ctx, info, wdir, spec=None):
     """nxpimage ahab export | verify | parse through click's CliRunner on a generated configuration."""
     import yaml
     from click.testing import CliRunner
@@ -1006,10 +1022,12 @@ def _run_cli(case, ctx, info, wdir):
     from spsdk.apps import nxpimage
 
     rng = ctx.rng
-    fam, rev, cver = _combo_for(info, rng)
+    if spec is None:
+        fam, rev, cver = _combo_for(info, rng)
+        mem = _pick(rng, info["mems"])
+        spec = gen_spec(rng, info, fam, rev, cver, mem, case["j"], "quick", force={"small": True})
+    fam, rev, cver, mem = spec["family"], spec["revision"], spec["cver"], spec["mem"]
     latest_types = info["dev"][f"{fam}/{rev}"]["ctypes"]
-    mem = _pick(rng, info["mems"])
-    spec = gen_spec(rng, info, fam, rev, cver, mem, case["j"], "quick", force={"small": True})
     cfg, inputs = materialise(spec, rng, wdir)
     cfgp = os.path.join(wdir, "cfg.yaml")
     with open(cfgp, "w", encoding="utf-8") as f:
@@ -1018,7 +1036,11 @@ def _run_cli(case, ctx, info, wdir):
     ctx.count("cli_runs")
     r = runner.invoke(nxpimage.main, ["ahab", "export", "-c", cfgp])
     outp = cfg["output"]
-    if r.exit_code != 0 or not os.path.exists(outp):
+    if (r.exit_code != 0 and os.path.exists(outp) and isinstance(r.exception, IndexError) and cver == 2
+            and any(c["kind"] for c in spec["containers"])):
+        # the image is written, then the fuse files are generated for SUPPORTED_SIGNATURES_CNT (2) tables although one exists
+        ctx.violation(K_CLI_SRK_HASH, {"spec": _brief(spec), "exception": core.exc_brief(r.exception)})
+    elif r.exit_code != 0 or not os.path.exists(outp):
         # same triage as the API path: build through the API to classify (refusal / known mechanism / violation)
         out = build_and_judge(ctx, spec, info, os.path.join(wdir, "api"), tag="cli-triage")
         if out is not None:
@@ -1058,7 +1080,11 @@ def _run_cli(case, ctx, info, wdir):
         with_dek = False
     rp = runner.invoke(nxpimage.main, args)
     ctx.count("cli_runs")
-    if rp.exit_code != 0 or "Success" not in rp.output:
+    v2_hash_crash = (isinstance(rp.exception, IndexError) and cver == 2 and any(c["kind"] for c in spec["containers"]) and "Success" in rp.output)
+    if v2_hash_crash:
+        ctx.violation(K_CLI_SRK_HASH, {"spec": _brief(spec), "command": "ahab parse", "exception": core.exc_brief(rp.exception)})
+        bad_n[0] += 1
+    if (rp.exit_code != 0 and not v2_hash_crash) or "Success" not in rp.output:
         bad("parse", {"exit": rp.exit_code, "output": rp.output[-300:], "exception": repr(rp.exception)[:200]}, prefix="cli-")
     else:
         for ci, c in enumerate(spec["containers"]):
@@ -1195,9 +1221,10 @@ def _run_witness(case, ctx, info, wdir):  # noqa: C901
         for cver in sorted({c[2] for c in info["combos"]}):
             spec = _simple_spec(ctx, info, cver, "p256", used=2)
             spec["containers"][0]["mask"] = 0x4 | (ctx.rng.getrandbits(4) & 0xB)
-            cfg, _inputs = materialise(spec, ctx.rng, os.path.join(wdir, f"v{cver}"))
+            d = os.path.join(wdir, f"v{cver}")
+            cfg, _inputs = materialise(spec, ctx.rng, d)
             try:
-                a = AHABImage.load_from_config(cfg, search_paths=[wdir])
+                a = AHABImage.load_from_config(cfg, search_paths=[d])
                 a.update_fields()
                 data = bytes(a.export())
             except SPSDKError as e:
@@ -1269,18 +1296,44 @@ def _run_witness(case, ctx, info, wdir):  # noqa: C901
         spec = _simple_spec(ctx, info, 1, "rsa2048", ncont=2)
         build_and_judge(ctx, spec, info, wdir)  # expected: refused, justified by the format model (header 0x5F0+ > 0x400 slot)
         return
+    if what == "cli_v2_single_table":
+        _run_cli(case, ctx, info, wdir, spec=_simple_spec(ctx, info, 2, "p256"))
+        return
+    if what == "rsa_signature_provider":
+        spec = _simple_spec(ctx, info, 1, "rsa2048")
+        spec["containers"][0]["sign_via"] = "provider"
+        out = build_and_judge(ctx, spec, info, wdir)
+        if out and out["clean"]:
+            flip_sweep(ctx, spec, out["data"], out["rep"], 6)
+        return
+    if what == "encrypted_with_size_alignment":
+        spec = _simple_spec(ctx, info, 1, "p256", blob=True)
+        img = spec["containers"][0]["images"][0]
+        img.update({"enc": True, "size": 700, "size_align": 4096, "type": "executable", "core": "cortex-m33", "group": "application"})
+        build_and_judge(ctx, spec, info, wdir)
+        return
     if what == "max_layout":
-        # max containers x max images for one family of each container version
+        # max containers; the last one with max images, the others with as many as their fixed slot can hold (format arithmetic)
         for cver in sorted({c[2] for c in info["combos"]}):
             fam, rev = _first_combo(info, cver)
             dev = info["dev"][f"{fam}/{rev}"]
+            fit = max(n for n in range(1, dev["imax"] + 1) if R.header_length(cver, n, "p256") <= R.CONTAINER_SLOT[cver])
             spec = gen_spec(ctx.rng, info, fam, rev, cver, "standard", 0, "quick",
                             force={"small": True, "ncont": dev["cmax"], "nimg": dev["imax"], "kind": "p256", "cert": False, "blob": False})
+            for c in spec["containers"][:-1]:
+                del c["images"][fit:]
             for c in spec["containers"]:
                 c["check_all"] = None
+                for i in c["images"]:
+                    i["hash"] = "sha512"
             out = build_and_judge(ctx, spec, info, os.path.join(wdir, f"v{cver}"))
             if out and out["clean"]:
+                ctx.count("max_layouts_built")
                 flip_sweep(ctx, spec, out["data"], out["rep"], 12)
+            # one image more in the first container cannot be represented when the slot is exhausted: must be refused, never exported
+            if fit < dev["imax"] and len(spec["containers"]) > 1:
+                spec["containers"][0]["images"].append(dict(spec["containers"][0]["images"][0], explicit=False, offset=0))
+                build_and_judge(ctx, spec, info, os.path.join(wdir, f"v{cver}x"))
         return
     raise core.Inconclusive(f"unknown witness {what}")
 
